@@ -250,4 +250,13 @@ def fixed_chains():
             ('BD[Lp,Lp],BD[W,W]', CompositionOperator([BlockDiagonalOperator([Lp, Lp]), BlockDiagonalOperator([W, W])])),
             ('BD[Rv,(Mv,Mv)]', BlockDiagonalOperator({'a': (Mv, Mv), 'b': RavelOperator(in_structure=s)})),
             ('BD[W,I]', BlockDiagonalOperator([W, IdentityOperator(st)]))]
+    # containers with ONE part whose part is itself reducible: the part must come back reduced
+    Pk1 = PackOperator(jnp.asarray([True, False, True, True, False, True]), Rr.out_structure())
+    Yp = DiagonalOperator(g.vals(4), in_structure=Pk1.out_structure())
+    out += [('Add[A.I@A]', AdditionOperator([CompositionOperator([A.I, A])])),
+            ('X,Add[H@X@H],X', CompositionOperator([X, AdditionOperator([CompositionOperator([H1, X, H2])]), X])),
+            ('Yp.I,Row[Pk],Col[Pk.T],Yp', CompositionOperator([Yp.I, BlockRowOperator([Pk1]), BlockColumnOperator([Pk1.T]), Yp])),
+            ('Row[2Pk],Col[3Pk.T]', CompositionOperator([BlockRowOperator([H1.value * Pk1]), BlockColumnOperator([H2.value * Pk1.T])])),
+            ('BD[A.I@A]', BlockDiagonalOperator([CompositionOperator([A.I, A])])),
+            ('X,(D.I,D),X nested', CompositionOperator([X, CompositionOperator([D.I, D]), X]))]
     return out
